@@ -266,7 +266,21 @@ func (g *generator) walkEnum(schema *openapi3.Schema) (ast.Type, error) {
 		format = "%s"
 	}
 
-	enumType, err := getEnumType(schema.Type.Slice()[0])
+	// `type` is optional next to `enum`: infer it from the values
+	typeName := ""
+	if schema.Type != nil && len(schema.Type.Slice()) != 0 {
+		typeName = schema.Type.Slice()[0]
+	} else if len(schema.Enum) != 0 {
+		switch schema.Enum[0].(type) {
+		case string:
+			typeName = openapi3.TypeString
+			format = "%s"
+		case float64, int, int64:
+			typeName = openapi3.TypeInteger
+		}
+	}
+
+	enumType, err := getEnumType(typeName)
 	if err != nil {
 		return ast.Type{}, err
 	}
